@@ -52,7 +52,9 @@ def gen_program(rng, cls, nvars, nstmts, max_len, max_index):
         x = rng.randrange(nvars)
         y = rng.choice(bound)
         z = rng.choice(bound)
-        if r < 0.10:
+        if r < 0.04:
+            st = ['zero', x]
+        elif r < 0.10:
             st = ['new', x, rand_term(rng, cls, max_len, max_index), rand_scalar(rng)]
         elif r < 0.17:
             st = ['alias', x, y]
@@ -78,8 +80,13 @@ def gen_program(rng, cls, nvars, nstmts, max_len, max_index):
             o = rng.choice(['mul', 'div', 'add', 'sub'])
             st = ['isop', x, o, rand_scalar(rng, for_div=(o == 'div'))]
         prog.append(st)
-        if st[0] in ('new', 'alias', 'bin', 'sbin', 'neg', 'pow') and st[1] not in bound:
+        if st[0] in ('new', 'zero', 'alias', 'bin', 'sbin', 'neg', 'pow') and st[1] not in bound:
             bound.append(st[1])
+        if st[0] == 'zero' and len(prog) < nstmts and rng.random() < 0.8:
+            # the accumulator idiom: total = Cls(); total += a; total op= b
+            prog.append(['iop', st[1], 'add', rng.choice([b for b in bound if b != st[1]] or bound)])
+            if len(prog) < nstmts:
+                prog.append(['iop', st[1], rng.choice(['add', 'sub', 'mul']), rng.choice(bound)])
     return prog
 
 
@@ -105,6 +112,8 @@ def exec_stmt(C, env, st):
     k = st[0]
     if k == 'new':
         env[st[1]] = C(st[2], st[3])
+    elif k == 'zero':
+        env[st[1]] = C()
     elif k == 'alias':
         env[st[1]] = env[st[2]]
     elif k == 'bin':
@@ -211,7 +220,10 @@ def oracle_requests(cls, prog, outs, max_n, alg, d):
         def val(snapshot, x):
             return None if snapshot is None else snapshot[x]
         lhs = rhs = None
-        if k == 'new':
+        if k == 'zero':
+            lhs = leaf(snap[st[1]])
+            rhs = leaf([])
+        elif k == 'new':
             lhs = leaf(snap[st[1]])
             rhs = leaf([[enc_term(cls, st[2]), to_gq(st[3])]])
         elif k == 'bin':
